@@ -133,9 +133,18 @@ def instances(  # pylint: disable=too-many-arguments,too-many-locals
         durations = [[draw(durs) for _ in range(ln)] for ln in lengths]
     if big_ok and draw(st.integers(0, 7)) == 0:
         # durations are arbitrary integers (e.g. microseconds): scale them so
-        # that times exceed 2**24 and are not representable in float32
-        factor = draw(st.sampled_from([2**24 + 1, 10**9 + 7]))
-        durations = [[x * factor for x in row] for row in durations]
+        # that times exceed 2**24 and are not representable in float32;
+        # big_ok=2 (pure integer oracles only) also goes beyond float64 and
+        # int64
+        factors = [2**24 + 1, 10**9 + 7]
+        if big_ok == 2:
+            factors += [2**53 + 1, 2**64 + 3]
+        factor = draw(st.sampled_from(factors))
+        if draw(st.booleans()):
+            durations = [[x * factor for x in row] for row in durations]
+        else:
+            # huge values that differ by little: rounding decides comparisons
+            durations = [[(factor + x) if x else 0 for x in row] for row in durations]
     case = {
         "durations": durations,
         "machines": machines,
@@ -144,6 +153,9 @@ def instances(  # pylint: disable=too-many-arguments,too-many-locals
         "ints": draw(st.booleans()),
         "family": family,
     }
+    if draw(st.integers(0, 5)) == 0:
+        # the Operation objects were used by another instance before
+        case["recycled"] = True
     return case
 
 
@@ -211,6 +223,8 @@ def inst_labels(inst):
         labels.append("zero_duration")
     if any(x > 2**24 for r in d for x in r):
         labels.append("huge_durations")
+    if inst.get("recycled"):
+        labels.append("recycled_operations")
     if len(used) < n_m:
         labels.append("unused_machine_id")
     loads = [0] * n_m
